@@ -23,18 +23,26 @@ def main():
     if ctx.ambient and ctx.ambient.get('warnings'):
         # after the imports: only what the library warns about while it is used counts
         import warnings
-        warnings.filterwarnings('error', module=r'athlib(\.|$)')
+        # ... or to its caller (stacklevel=2 attributes a deprecation notice to the calling module, here the harness)
+        warnings.filterwarnings('error', module=r'(athlib|vf)(\.|$)')
         ctx.counters['ambient.athlib-warnings-are-errors'] += 1
     if replay:
         with open(replay) as f:
             r = json.load(f)
         print('replaying %d witnesses of %s [%s] against %s' % (len(r['witnesses']), prop, r['key'], core.REPO))
+        from . import attach
+        for w in r['witnesses']:
+            if w.get('decimal_context'):
+                attach.AMB['force'] = w['decimal_context']
+                print('  (the real calls run under the decimal context %s, as in the witness)' % w['decimal_context'])
+                break
         mod.replay(ctx, [core.unjson(w['case']) for w in r['witnesses']])
     else:
         from . import attach
         import random
         if not getattr(mod, 'NO_DETERMINISM', False):
             attach.DET['ctx'] = ctx
+        attach.AMB['on'] = not getattr(mod, 'NO_DECIMAL_CONTEXT', False) and os.environ.get('VERIF_NO_DECIMAL_CONTEXT') != '1'
         mod.run_shard(ctx, spec)
         if attach.DET['recs']:
             attach.replay_recorded(random.Random(int(seed) * 7 + 1))
